@@ -231,6 +231,38 @@ Definition to_diff (d : sdiff) : diff :=
   {| d_deployed := sd_deployed d; d_replaced := sd_replaced d; d_nonces := sd_nonces d;
      d_storage := sd_storage d; d_declared := sd_declared_v1 d; d_migrated := sd_migrated d |}.
 
+(* ---------- Sierra class hash (core/class.go SierraClass.Hash composed with what the two producers of a
+   core.SierraClass - adapters/sn2core.AdaptSierraClass and adapters/p2p2core.AdaptSierraClass - put into its
+   AbiHash / ProgramHash fields: StarknetKeccak of the ABI text and PoseidonArray of the program) ---------- *)
+Definition c_contract_class_v : Z := 89470055877985019834276923082200538966.        (* "CONTRACT_CLASS_V" *)
+
+Record entry_point := { ep_selector : Z; ep_index : Z }.     (* SierraEntryPoint: Selector felt, Index uint64 *)
+Record sierra := {
+  sc_version : list Z;                        (* []byte(SemanticVersion), e.g. "0.1.0" *)
+  sc_external : list entry_point;
+  sc_l1handler : list entry_point;
+  sc_constructor : list entry_point;
+  sc_abi : list Z;                            (* []byte(Abi) *)
+  sc_program : list Z
+}.
+
+(* big-endian number of a byte string (felt.SetBytes, before the reduction modulo P) *)
+Definition be_num (bs : list Z) : Z := fold_left (fun acc b => acc * 256 + b) bs 0.
+(* felt.NewFromBytes([]byte("CONTRACT_CLASS_V" + SemanticVersion)) *)
+Definition version_felt (v : list Z) : Z := (c_contract_class_v * 256 ^ Z.of_nat (length v) + be_num v) mod felt_P.
+
+(* sierraEntryPointsHash: a Poseidon digest fed (selector, index) per entry point = PoseidonArray of the flattening *)
+Definition ep_enc (e : entry_point) : list term := [TC (ep_selector e); TC (ep_index e)].
+Definition eps_hash (l : list entry_point) : term := TPosN (concat (map ep_enc l)).
+
+(* [kec] = crypto.StarknetKeccak on byte strings: external code, a parameter *)
+Definition class_hash (kec : list Z -> Z) (c : sierra) : term :=
+  TPosN [TC (version_felt (sc_version c)); eps_hash (sc_external c); eps_hash (sc_l1handler c);
+         eps_hash (sc_constructor c); TC (kec (sc_abi c)); TPosN (tcs (sc_program c))].
+
+(* a class definition delivered with a block: Cairo-0 definitions are not verified (VerifyClassHashes skips them) *)
+Inductive cdef := Cairo0 | Sierra (c : sierra).
+
 (* ---------- header, block hash ---------- *)
 Record header := {
   h_number : Z;
@@ -242,6 +274,7 @@ Record header := {
   h_l1_gas_wei : Z; h_l1_gas_fri : Z;
   h_l1_data_wei : Z; h_l1_data_fri : Z;
   h_l2_wei : Z; h_l2_fri : Z;
+  h_prices_present : bool;                    (* Header.L1DataGasPrice and Header.L2GasPrice objects are both non-nil *)
   h_version_str : Z;                          (* []byte(ProtocolVersion) as a number *)
   h_ver : Z * Z * Z;                          (* ParseBlockVersion: major, minor, patch *)
   h_parent : term
@@ -261,8 +294,11 @@ Record block := {
   b_txs : list txrec;
   b_rcpts : list receipt;
   b_diff : sdiff;
-  b_hash : term;                              (* declared: Header.Hash = StateUpdate.BlockHash *)
-  b_old_root : term                           (* StateUpdate.OldRoot *)
+  b_hash : term;                              (* declared: Header.Hash *)
+  b_old_root : term;                          (* StateUpdate.OldRoot *)
+  b_su_hash : term;                           (* StateUpdate.BlockHash *)
+  b_su_new_root : term;                       (* StateUpdate.NewRoot (Header.GlobalStateRoot is h_state_root) *)
+  b_classes : list (Z * cdef)                 (* the definitions delivered with the block, by the key they come under *)
 }.
 
 Definition counts_term (b : block) : term :=
@@ -304,10 +340,10 @@ Definition block_hash_pre07 (chain : Z) (b : block) : term :=
   TPedN [TC (h_number h); h_state_root h; TC 0; TC 0; TC (h_tx_count h);
          tx_commitment_ped (ver_ge (h_ver h) (0, 11, 1)) (b_txs b); TC 0; TC 0; TC 0; TC 0; TC chain; h_parent h].
 
-(* core.BlockHash dispatch *)
+(* core.BlockHash dispatch; post0134Hash fails on a header without the two price objects (/repo 6c79775) *)
 Definition block_hash (b : block) : option term :=
   let v := h_ver (b_hdr b) in
-  if ver_ge v (0, 13, 4) then Some (block_hash_0134 b)
+  if ver_ge v (0, 13, 4) then (if h_prices_present (b_hdr b) then Some (block_hash_0134 b) else None)
   else if ver_ge v (0, 13, 2) then Some (block_hash_0132 b)
   else Some (block_hash_post07 b).
 
@@ -347,83 +383,192 @@ Fixpoint term_eqb (a b : term) : bool :=
   end.
 
 (* ---------- acceptance: SanityCheckNewHeight + Store ---------- *)
+(* core.ClassCasmHashMetadata of a Sierra class: block of declaration, declared with the V2 (>= 0.14.1) hash,
+   migrated *)
+Record casm_meta := { cm_at : Z; cm_v2 : bool; cm_migrated : bool }.
+
 Record chain_state := {
   cs_head : option (Z * term);       (* number and hash of the head; None = empty chain *)
   cs_state : state;                  (* the head state (C01.State) *)
-  cs_blocks : list block             (* everything stored, newest first *)
+  cs_blocks : list block;            (* everything stored, newest first *)
+  cs_casm : list (Z * casm_meta)     (* bucket ClassCasmHashMetadata *)
 }.
 
-Definition empty_chain : chain_state := {| cs_head := None; cs_state := empty_state; cs_blocks := [] |}.
+Definition empty_chain : chain_state := {| cs_head := None; cs_state := empty_state; cs_blocks := []; cs_casm := [] |}.
+
+Definition tx_verified (b : block) : bool := ver_ge (h_ver (b_hdr b)) (0, 11, 0).
+Definition pre_0_14 (b : block) : bool := negb (ver_ge (h_ver (b_hdr b)) (0, 14, 0)).
+
+(* updateClassTrie / updateDeclaredClassesTrie (both backends): a class declared by the diff enters the class
+   trie only if its definition came with the block *)
+Definition has_def (cl : list (Z * cdef)) (k : Z) : bool := existsb (fun kc => Z.eqb (fst kc) k) cl.
+Definition to_diff_b (b : block) : diff :=
+  let d := b_diff b in
+  {| d_deployed := sd_deployed d; d_replaced := sd_replaced d; d_nonces := sd_nonces d;
+     d_storage := sd_storage d;
+     d_declared := filter (fun kv => has_def (b_classes b) (fst kv)) (sd_declared_v1 d);
+     d_migrated := sd_migrated d |}.
+(* state.Update: the diff applied to the state the node holds *)
+Definition new_state (cs : chain_state) (b : block) : state := apply_diff true (cs_state cs) (to_diff_b b).
+
+(* ---------- what the state layer and the CASM-hash bookkeeping refuse (no hashing involved) ---------- *)
+Definition deployed_in (cs : list (Z * contract)) (a : Z) : bool :=
+  match zget cs a with Some _ => true | None => false end.
+(* state.Update, both backends: a deployed address must be new (ErrContractAlreadyDeployed); a replaced class, a
+   nonce, a storage diff need a deployed contract (deployed earlier or by this diff) - except storage of the
+   system contracts 0x1 / 0x2, which are created on first write *)
+Definition diff_applicable (st : state) (d : sdiff) : bool :=
+  let live a := deployed_in (contracts st) a || existsb (fun av => Z.eqb (fst av) a) (sd_deployed d) in
+  forallb (fun av => negb (deployed_in (contracts st) (fst av))) (sd_deployed d) &&
+  forallb (fun av => live (fst av)) (sd_replaced d) &&
+  forallb (fun av => live (fst av)) (sd_nonces d) &&
+  forallb (fun asl => live (fst asl) || sys_contract (fst asl)) (sd_storage d).
+
+Definition get_def (cl : list (Z * cdef)) (k : Z) : option cdef :=
+  match find (fun kc => Z.eqb (fst kc) k) cl with Some kc => Some (snd kc) | None => None end.
+Definition v0141 (b : block) : bool := ver_ge (h_ver (b_hdr b)) (0, 14, 1).
+(* storeCasmHashMetadata (blockchain/statebackend/casm_metadata.go; it reads the database as it was BEFORE the
+   block): below 0.14.1 every declared class needs a Sierra definition among the delivered classes (its V2
+   CASM hash is computed from it); from 0.14.1 on every migrated class must have metadata, not be declared
+   with the V2 hash, be declared in an earlier block and not be migrated already *)
+Definition casm_ok (cs : chain_state) (b : block) : bool :=
+  if v0141 b then
+    forallb (fun km => match zget (cs_casm cs) (fst km) with
+                       | Some m => negb (cm_v2 m) && (cm_at m <? h_number (b_hdr b)) && negb (cm_migrated m)
+                       | None => false
+                       end) (sd_migrated (b_diff b))
+  else
+    forallb (fun kv => match get_def (b_classes b) (fst kv) with Some (Sierra _) => true | _ => false end)
+            (sd_declared_v1 (b_diff b)).
+Definition new_casm (cs : chain_state) (b : block) : list (Z * casm_meta) :=
+  let n := h_number (b_hdr b) in
+  let d := b_diff b in
+  if v0141 b then
+    let m1 := fold_left (fun m kv => zset m (fst kv) {| cm_at := n; cm_v2 := true; cm_migrated := false |})
+                        (sd_declared_v1 d) (cs_casm cs) in
+    fold_left (fun m km => match zget (cs_casm cs) (fst km) with
+                           | Some x => zset m (fst km) {| cm_at := cm_at x; cm_v2 := cm_v2 x; cm_migrated := true |}
+                           | None => m
+                           end) (sd_migrated d) m1
+  else
+    fold_left (fun m kv => zset m (fst kv) {| cm_at := n; cm_v2 := false; cm_migrated := false |})
+              (sd_declared_v1 d) (cs_casm cs).
+
+(* the chain after storing b *)
+Definition next_state (cs : chain_state) (b : block) : chain_state :=
+  {| cs_head := Some (h_number (b_hdr b), b_hash b);
+     cs_state := new_state cs b;
+     cs_blocks := b :: cs_blocks cs;
+     cs_casm := new_casm cs b |}.
+
+(* Every comparison juno makes is felt.Equal on EVALUATED hashes. [ev] is the evaluation of hash terms:
+   the identity for the free algebra (comparisons are then syntactic: the instance of the injectivity theorems),
+   juno's Pedersen / Poseidon for the oracle of the correspondence run (which decides accept / reject with this
+   very function on the fields juno was given). [kec] is crypto.StarknetKeccak on byte strings. *)
+Section Ev.
+Variable ev : term -> term.
+Variable kec : list Z -> Z.
+
+Definition eqv (a b : term) : bool := term_eqb (ev a) (ev b).
+
+(* SanityCheckNewHeight, first two comparisons: header vs state update *)
+Definition su_ok (b : block) : bool :=
+  eqv (b_hash b) (b_su_hash b) && eqv (h_state_root (b_hdr b)) (b_su_new_root b).
+
+(* core.VerifyClassHashes: every delivered Sierra definition hashes to the key it is delivered under *)
+Definition class_ok (kc : Z * cdef) : bool :=
+  match snd kc with
+  | Cairo0 => true
+  | Sierra c => eqv (class_hash kec c) (TC (fst kc))
+  end.
+Definition classes_ok (b : block) : bool := forallb class_ok (b_classes b).
 
 (* verifyBlockSuccession *)
 Definition succession_ok (cs : chain_state) (b : block) : bool :=
   version_supported (h_ver (b_hdr b)) &&
   match cs_head cs with
-  | None => (h_number (b_hdr b) =? 0) && term_eqb (h_parent (b_hdr b)) (TC 0)
-  | Some (n, hh) => (h_number (b_hdr b) =? n + 1) && term_eqb (h_parent (b_hdr b)) hh
+  | None => (h_number (b_hdr b) =? 0) && eqv (h_parent (b_hdr b)) (TC 0)
+  | Some (n, hh) => (h_number (b_hdr b) =? n + 1) && eqv (h_parent (b_hdr b)) hh
   end.
 
 (* VerifyBlockHash: receipts pair up with transactions; VerifyTransactions recomputes every hash *)
 Fixpoint receipts_match (txs : list txrec) (rs : list receipt) : bool :=
   match txs, rs with
   | [], [] => true
-  | t :: txs', r :: rs' => term_eqb (t_hash t) (r_txhash r) && receipts_match txs' rs'
+  | t :: txs', r :: rs' => eqv (t_hash t) (r_txhash r) && receipts_match txs' rs'
   | _, _ => false
   end.
 (* VerifyTransactions: nothing is recomputed for block versions below 0.11.0, nor for the unverified kinds *)
-Definition tx_verified (b : block) : bool := ver_ge (h_ver (b_hdr b)) (0, 11, 0).
 Definition tx_hashes_ok (chain : Z) (b : block) : bool :=
   negb (tx_verified b) ||
-  forallb (fun t => is_unverified t || term_eqb (tx_hash chain (t_body t)) (t_hash t)) (b_txs b).
+  forallb (fun t => is_unverified t || eqv (tx_hash chain (t_body t)) (t_hash t)) (b_txs b).
 Definition block_hash_ok (b : block) : bool :=
-  match block_hash b with Some h => term_eqb h (b_hash b) | None => false end.
+  match block_hash b with Some h => eqv h (b_hash b) | None => false end.
 
-Definition pre_0_14 (b : block) : bool := negb (ver_ge (h_ver (b_hdr b)) (0, 14, 0)).
-
-(* state.Update: the state the node holds must have root OldRoot; the diff applied to it must give the
-   declared root (GlobalStateRoot = StateUpdate.NewRoot, compared in SanityCheckNewHeight) *)
-Definition new_state (cs : chain_state) (b : block) : state := apply_diff true (cs_state cs) (to_diff (b_diff b)).
 (* Both backends open the HEAD's state (the new backend since /repo 14a038f; the legacy one always did) and
    require StateUpdate.OldRoot to be its commitment computed under the NEW block's protocol version
-   (verifyComm / verifyStateUpdateRoot); the block hash does not cover OldRoot. *)
+   (verifyComm / verifyStateUpdateRoot); the block hash does not cover OldRoot. The diff applied to it must
+   give the declared root. *)
 Definition roots_ok (cs : chain_state) (b : block) : bool :=
-  term_eqb (commitment (pre_0_14 b) (cs_state cs)) (b_old_root b) &&
-  term_eqb (commitment (pre_0_14 b) (new_state cs b)) (h_state_root (b_hdr b)).
+  eqv (commitment (pre_0_14 b) (cs_state cs)) (b_old_root b) &&
+  eqv (commitment (pre_0_14 b) (new_state cs b)) (h_state_root (b_hdr b)).
 
-Definition accept (chain : Z) (cs : chain_state) (b : block) : option chain_state :=
-  if receipts_match (b_txs b) (b_rcpts b) && tx_hashes_ok chain b && block_hash_ok b
-     && succession_ok cs b && roots_ok cs b
-  then Some {| cs_head := Some (h_number (b_hdr b), b_hash b);
-               cs_state := new_state cs b;
-               cs_blocks := b :: cs_blocks cs |}
+(* core.VerifyBlockHash alone (what a block without a chain can be checked against) *)
+Definition verify_block_hash (chain : Z) (b : block) : bool :=
+  receipts_match (b_txs b) (b_rcpts b) && tx_hashes_ok chain b && block_hash_ok b.
+
+Definition accept_ev (chain : Z) (cs : chain_state) (b : block) : option chain_state :=
+  if su_ok b && classes_ok b && receipts_match (b_txs b) (b_rcpts b) && tx_hashes_ok chain b && block_hash_ok b
+     && succession_ok cs b && diff_applicable (cs_state cs) (b_diff b) && roots_ok cs b && casm_ok cs b
+  then Some (next_state cs b)
   else None.
 
 (* store a sequence of blocks; rejected blocks leave the chain as it is *)
-Definition push (chain : Z) (cs : chain_state) (b : block) : chain_state :=
-  match accept chain cs b with Some cs' => cs' | None => cs end.
-Definition run (chain : Z) (bs : list block) : chain_state := fold_left (push chain) bs empty_chain.
+Definition push_ev (chain : Z) (cs : chain_state) (b : block) : chain_state :=
+  match accept_ev chain cs b with Some cs' => cs' | None => cs end.
+Definition run_ev (chain : Z) (bs : list block) : chain_state := fold_left (push_ev chain) bs empty_chain.
 
-(* ---------- sealing: complete a block's hashes, linkage and roots from the model (what the harness does
-   with evaluated terms; used by the non-vacuity examples) ---------- *)
-Definition seal (chain : Z) (cs : chain_state) (b : block) : block :=
+(* the key a Sierra definition must be delivered under *)
+Definition felt_of (t : term) : Z := match t with TC z => z | _ => -1 end.
+Definition class_key (c : sierra) : Z := felt_of (ev (class_hash kec c)).
+
+(* ---------- sealing: complete a block's hashes, linkage, roots and class keys from the model (what the
+   harness does with evaluated terms; used by the non-vacuity examples) ---------- *)
+Definition seal_ev (chain : Z) (cs : chain_state) (b : block) : block :=
   let txs := map (fun t => {| t_body := t_body t; t_sig := t_sig t;
-                            t_hash := if is_unverified t then t_hash t else tx_hash chain (t_body t) |}) (b_txs b) in
+                            t_hash := if is_unverified t then t_hash t else ev (tx_hash chain (t_body t)) |}) (b_txs b) in
   let rs := map (fun tr => let r := snd tr in
                   {| r_txhash := t_hash (fst tr); r_fee := r_fee r; r_msgs := r_msgs r; r_revert := r_revert r;
                      r_l1gas := r_l1gas r; r_l1datagas := r_l1datagas r; r_events := r_events r |})
                 (combine txs (b_rcpts b)) in
+  let cls := map (fun kc => match snd kc with Sierra c => (class_key c, Sierra c) | Cairo0 => kc end) (b_classes b) in
   let h := b_hdr b in
   let '(num, par) := match cs_head cs with None => (0, TC 0) | Some (n, hh) => (n + 1, hh) end in
-  let hdr := {| h_number := num; h_state_root := commitment (pre_0_14 b) (new_state cs b);
+  let b0 := {| b_hdr := h; b_txs := txs; b_rcpts := rs; b_diff := b_diff b; b_hash := TC 0; b_old_root := TC 0;
+               b_su_hash := TC 0; b_su_new_root := TC 0; b_classes := cls |} in
+  let root := ev (commitment (pre_0_14 b) (new_state cs b0)) in
+  let hdr := {| h_number := num; h_state_root := root;
                 h_sequencer := h_sequencer h; h_timestamp := h_timestamp h; h_tx_count := h_tx_count h;
                 h_event_count := h_event_count h; h_blob := h_blob h;
                 h_l1_gas_wei := h_l1_gas_wei h; h_l1_gas_fri := h_l1_gas_fri h; h_l1_data_wei := h_l1_data_wei h;
                 h_l1_data_fri := h_l1_data_fri h; h_l2_wei := h_l2_wei h; h_l2_fri := h_l2_fri h;
+                h_prices_present := h_prices_present h;
                 h_version_str := h_version_str h; h_ver := h_ver h; h_parent := par |} in
+  let old := ev (commitment (pre_0_14 b) (cs_state cs)) in
   let b1 := {| b_hdr := hdr; b_txs := txs; b_rcpts := rs; b_diff := b_diff b; b_hash := TC 0;
-               b_old_root := commitment (pre_0_14 b) (cs_state cs) |} in
+               b_old_root := old; b_su_hash := TC 0; b_su_new_root := root; b_classes := cls |} in
   match block_hash b1 with
-  | Some hh => {| b_hdr := hdr; b_txs := txs; b_rcpts := rs; b_diff := b_diff b; b_hash := hh;
-                  b_old_root := b_old_root b1 |}
+  | Some hh => {| b_hdr := hdr; b_txs := txs; b_rcpts := rs; b_diff := b_diff b; b_hash := ev hh;
+                  b_old_root := old; b_su_hash := ev hh; b_su_new_root := root; b_classes := cls |}
   | None => b1
   end.
+End Ev.
+
+(* the free-algebra instance: hash terms are compared syntactically (no Sierra definition can verify there: a
+   class key is a felt, a class hash a Poseidon term; the class theorems are stated for arbitrary [ev]) *)
+Definition tid (t : term) : term := t.
+Definition kec0 (_ : list Z) : Z := 0.
+Definition accept : Z -> chain_state -> block -> option chain_state := accept_ev tid kec0.
+Definition push : Z -> chain_state -> block -> chain_state := push_ev tid kec0.
+Definition run : Z -> list block -> chain_state := run_ev tid kec0.
+Definition seal : Z -> chain_state -> block -> block := seal_ev tid kec0.
